@@ -1091,7 +1091,7 @@ func (m *LinearBlockMetadata) populateAllocationRequestUpper(
 	}
 
 	// Apply alignment
-	resultOffset = memutils.AlignUp(resultOffset, allocAlignment)
+	resultOffset = memutils.AlignDown(resultOffset, allocAlignment)
 
 	// Check next suballocations from second vector for BufferImageGranularity conflicts. Increase alignment if
 	// necessary
